@@ -40,6 +40,8 @@ plan = c11.plan
 def run_shard(desc, ctx):
     for i in range(desc['cases']):
         run_case({'seed': [desc['seed'], desc['shard'], i]}, ctx)
+    if desc['shard'] == 9:
+        run_case({'seed': [desc['seed'], desc['shard'], 262626], 'many': 260}, ctx)       # more probes than a byte can number
 
 
 def run_case(case, ctx):
